@@ -1,6 +1,6 @@
 (* C14 -- MemMergePass: the per-invocation validator is sound (definitions: MemSym.v). *)
 From Coq Require Import ZArith NArith Bool List String Lia.
-From Verif Require Import Base.Word256 C14MM.MemSym C14MM.MemSymProofs.
+From Verif Require Import Base.Word256 Base.PyInt C14MM.MemSym C14MM.MemSymProofs C14MM.GenCopy C14MM.CopyModel C14MM.CopyProofs.
 Import ListNotations.
 Open Scope Z_scope.
 
@@ -23,6 +23,27 @@ Theorem memmerge_check_sound : forall B A, mm_check B A = true ->
   forall r a, snd (cfinal Gb (0%nat, mems Gb 0) B) r a = snd (cfinal Ga (0%nat, mems Ga 0) A) r a.
 Proof. exact mm_check_sound_main. Qed.
 Print Assumptions memmerge_check_sound.
+
+(* the interval kernel (`_Copy.can_merge` / `_Copy.merge`, translated from the source on every run) *)
+Theorem memmerge_copy_ext_sound : forall s o M f, merged s o = Ok M -> 0 <= c_len s -> 0 <= c_len o ->
+  forall m a, apply_ext f o (apply_ext f s m) a = apply_ext f M m a /\ apply_ext f s (apply_ext f o m) a = apply_ext f M m a.
+Proof. exact copy_merge_ext_sound. Qed.
+Print Assumptions memmerge_copy_ext_sound.
+Theorem memmerge_copy_mem_sound : forall s o M, merged s o = Ok M -> 0 <= c_len s -> 0 <= c_len o ->
+  disjoint_b (c_dst s) (c_len s) (c_src o) (c_len o) = true ->
+  forall m a, apply_mem o (apply_mem s m) a = apply_mem M m a.
+Proof. exact copy_merge_mem_sound. Qed.
+Print Assumptions memmerge_copy_mem_sound.
+Theorem memmerge_copy_mem_sound_rev : forall s o M, merged s o = Ok M -> 0 <= c_len s -> 0 <= c_len o ->
+  disjoint_b (c_dst o) (c_len o) (c_src s) (c_len s) = true ->
+  forall m a, apply_mem s (apply_mem o m) a = apply_mem M m a.
+Proof. exact copy_merge_mem_sound_rev. Qed.
+Print Assumptions memmerge_copy_mem_sound_rev.
+Theorem memmerge_copy_mem_needs_hazard_check :
+  exists s o M m a, merged s o = Ok M /\ apply_mem o (apply_mem s m) a <> apply_mem M m a.
+Proof. exact copy_merge_mem_needs_hazard_check. Qed.
+Theorem memmerge_merge_total : forall s o, can_merge_c s o = Ok true -> c_dst s <= c_dst o -> exists M, merged s o = Ok M.
+Proof. exact merge_total. Qed.
 
 (* non-vacuity.  %0 = mload 0 ; mstore 100,%0 ; %1 = mload 32 ; mstore 132,%1 ; sha3(barrier)  ==>  mcopy 100,0,64 ; sha3 *)
 Definition ex_B : list mi :=
